@@ -278,6 +278,17 @@ func tselect(c, a, b *Term) *Term {
 			return b
 		}
 	}
+	// boolean short-circuit forms: c ? x : false = c && x ; c ? true : x = c || x
+	if b.Op == "const" && b.Name == "false" {
+		parts := []*Term{c, a}
+		sortTerms(parts)
+		return mk("and", "", parts...)
+	}
+	if a.Op == "const" && a.Name == "true" {
+		parts := []*Term{c, b}
+		sortTerms(parts)
+		return mk("or", "", parts...)
+	}
 	// |x| in if-form: select(x < 0, -x, x)
 	if (c.Op == "lt" || c.Op == "le") && c.Args[1].String() == "0" && b.String() == c.Args[0].String() && a.String() == tmul(tconst(-1), b).String() {
 		return mk("abs", "", b)
